@@ -228,8 +228,8 @@ func (p *Program) guardedByNonNil(info *types.Info, n ast.Node, stop ast.Node, w
 // typeSwitchInfo describes a `switch v := x.(type)` statement.
 type typeSwitchInfo struct {
 	Stmt    *ast.TypeSwitchStmt
-	Tag     ast.Expr                       // x
-	Clauses []*ast.CaseClause              //
+	Tag     ast.Expr                         // x
+	Clauses []*ast.CaseClause                //
 	Types   map[*ast.CaseClause][]types.Type // nil entry inside slice = `case nil`
 	Default *ast.CaseClause
 }
